@@ -35,6 +35,15 @@ INT_ATTRS = [2]            # `x: int` on spec classes; the others are `Any`
 TRANSFORMS = {None: None, "FInc": lambda v: v + 1, "FNeg": lambda v: -v, "FSeven": lambda v: 7}
 
 
+# transforms handed to transform_<a>(g) (AliasModel.v:hfn / apply_hfn).  HPush and HPushOne
+# WRITE INTO their argument: harmless when the helper hands them a protected copy, a change of
+# the original instance when it hands them the live object (seed C18-E1).
+HFNS = ["HId", "HPush", "HPushOne", "HWrap", "HInc", "HSeven"]
+HELPER_KINDS = ("WithAlias", "WithTarget", "TransformAlias", "UpdateAlias", "ResetAlias",
+                "TransformTarget", "UpdateTarget", "ResetTarget")
+COPY_KINDS = ("DeepCopy",) + HELPER_KINDS
+
+
 # ------------------------------------------------------------------ trees <-> Python / Coq / JSON
 # tree: ("n",) | ("i", z) | ("s", z) | ("I", [(attr id, tree)...]) | ("D", [(key id, tree)...])
 #       | ("T", [tree...]) tuple | ("F", [tree...]) frozenset, elements in canonical (repr) order
@@ -221,6 +230,35 @@ class World:
         self.note(r)
         return (kind, t)
 
+    def hfn(self, g):
+        """the callable for transform_<a>(g); every argument it receives is kept alive"""
+        def poke(v):
+            if isinstance(v, dict):
+                v[KEYS[1]] = 99
+            elif isinstance(v, (self.Host, self.Node, _Bag)):
+                object.__getattribute__(v, "__dict__")[ATTR[3]] = 99
+            else:
+                raise TypeError("nothing to write into")
+
+        def f(v):
+            self.keep.append(v)
+            if g == "HId":
+                return v
+            if g == "HPush":
+                poke(v)
+                return v
+            if g == "HPushOne":
+                poke(v)
+                return 1
+            if g == "HWrap":
+                return {KEYS[0]: v}
+            if g == "HInc":
+                return v + 1
+            if g == "HSeven":
+                return 7
+            raise AssertionError(g)
+        return f
+
     def walk(self, o, path):
         for s in path:
             o = getattr(o, ATTR[s[1]]) if s[0] == "A" else o[KEYS[s[1]]]
@@ -261,17 +299,29 @@ class World:
                 else:
                     del parent[KEYS[last[1]]]
                 return ("ONone",)
-        if kind in ("DeepCopy", "WithAlias", "WithTarget"):
+        if kind in COPY_KINDS:
             prior = set()
             for r in roots:
                 self.mutable_ids(r, prior)
             if kind == "DeepCopy":
                 n = copy.deepcopy(roots[op[1]])
             else:
-                v = self.build(op[2]); self.note(v)
-                helper = "with_" + (y if kind == "WithAlias" else ATTR[path[0][1]])
-                n = getattr(roots[op[1]], helper)(v)
-                assert n is not roots[op[1]]
+                from spec_classes import MISSING
+                attr = y if kind.endswith("Alias") else ATTR[path[0][1]]
+                verb = {"With": "with_", "Tran": "transform_", "Upda": "update_", "Rese": "reset_"}[kind[:4]]
+                helper = getattr(roots[op[1]], verb + attr)
+                if verb == "reset_":
+                    n = helper()
+                elif verb == "transform_":
+                    n = helper(self.hfn(op[2]))
+                elif op[2] is None:          # update_<a>(MISSING): keep the current value
+                    n = helper(MISSING)
+                else:
+                    v = self.build(op[2]); self.note(v)
+                    n = helper(v)
+                if n is roots[op[1]]:
+                    # a copy-on-write helper that hands back the instance it was called on
+                    return ("OVal", ("s", -88))
             shared = self.mutable_ids(n) & prior
             roots.append(n); self.note(n)
             # a copy that shares a mutable object (e.g. the local override, or something inside
@@ -361,6 +411,12 @@ def c_xop(o):
         return f"XOn {o[1]} ({c_op(o[2])})"
     if o[0] == "DeepCopy":
         return f"XDeepCopy {o[1]}"
+    if o[0].startswith("Reset"):
+        return f"X{o[0]} {o[1]}"
+    if o[0].startswith("Transform"):
+        return f"X{o[0]} {o[1]} {o[2]}"
+    if o[0].startswith("Update"):
+        return f"X{o[0]} {o[1]} {copt(o[2], c_val)}"
     return f"X{o[0]} {o[1]} {c_val(o[2])}"
 
 
@@ -528,9 +584,34 @@ def gen_init(rng, host, cfg):
         t = perturb(rng, t, path)
     if t[0] != "I":
         t = ("I", [])
+    t = no_empty_dict_in_typed_slot(t, host, cfg)
     if not cfg["pt"] and rng.random() < 0.2:      # starts out shadowed
         t = ("I", t[1] + [(-cfg["name"] - 1, rng.choice(SCALARS))])
     return t
+
+
+def no_empty_dict_in_typed_slot(t, host, cfg):
+    """An `int`-annotated target that holds {} is the one start state from which a passthrough
+    helper would assign an EMPTY dict to an `int` attribute of a spec class — which spec-classes
+    reads as constructor arguments (int() == 0; C05 territory, see docs/C18.md).  Such a slot
+    starts out holding 0 instead."""
+    if not slot_typed(host, cfg):
+        return t
+
+    def go(n, i):
+        if n[0] not in ("I", "D"):
+            return n
+        s = cfg["path"][i]
+        ents = []
+        for k, v in n[1]:
+            if k == s[1] and ((n[0] == "I") == (s[0] == "A")):
+                if i == len(cfg["path"]) - 1:
+                    v = ("i", 0) if v == ("D", []) else v
+                else:
+                    v = go(v, i + 1)
+            ents.append((k, v))
+        return (n[0], ents)
+    return go(t, 0)
 
 
 def slot_typed(host, cfg):
@@ -550,23 +631,29 @@ def gen_ops(rng, host, cfg, maxlen):
             kinds += ["RdTarget"] * 2 + ["WrTarget"] * 2 + ["DelTarget"] * 2
         kinds += ["DeepCopy"]
         if host["spec"]:
-            kinds += ["WithAlias"] * 2
+            kinds += ["WithAlias"] * 2 + ["TransformAlias"] * 3 + ["UpdateAlias", "ResetAlias"]
             if len(cfg["path"]) == 1 and cfg["path"][0][0] == "A":
-                kinds += ["WithTarget"] * 2
+                kinds += ["WithTarget"] * 2 + ["TransformTarget"] * 2 + ["UpdateTarget", "ResetTarget"]
         k = rng.choice(kinds)
+        if k.startswith("Update") and rng.random() < 0.5:
+            ops.append((k, i, None))        # update_<a>(MISSING)
+            nroots += 1
+            continue
         # a dict handed to an `int` attribute of a spec class is read as constructor
         # arguments by spec-classes (int(**{}) == 0): not an assignment of that value
-        if k in ("WrAlias", "WithAlias"):
+        if k in ("WrAlias", "WithAlias", "UpdateAlias"):
             v = rand_val(rng, mutable_ok=not (alias_typed or (cfg["pt"] and tgt_typed)))
             ops.append(("On", i, (k, v)) if k == "WrAlias" else (k, i, v))
-        elif k in ("WrTarget", "WithTarget"):
+        elif k in ("WrTarget", "WithTarget", "UpdateTarget"):
             v = rand_val(rng, mutable_ok=not tgt_typed)
             ops.append(("On", i, (k, v)) if k == "WrTarget" else (k, i, v))
-        elif k == "DeepCopy":
+        elif k in ("TransformAlias", "TransformTarget"):
+            ops.append((k, i, rng.choice(HFNS)))
+        elif k in ("DeepCopy", "ResetAlias", "ResetTarget"):
             ops.append((k, i))
         else:
             ops.append(("On", i, (k,)))
-        if k in ("DeepCopy", "WithAlias", "WithTarget"):
+        if k in COPY_KINDS:
             nroots += 1     # may not materialise when the helper raises; indices are re-clamped at run time
     return ops
 
@@ -598,17 +685,100 @@ def exhaustive_cases(rng, tier):
         host = {"spec": spec, "int": sorted(INT_ATTRS + ([5] if spec else []))}
         cfg = {"path": path, "pt": pt, "tr": tr, "fb": fb, "name": 5, "bound": True, "dep": dep, "quotes": 0}
         init = happy_tree(rng, path, present=rng.random() < 0.75)
-        copy_op = "WithAlias" if spec and rng.random() < 0.7 else "DeepCopy"
+        r = rng.random()
+        copy_op = "DeepCopy" if not spec or r < 0.3 else "WithAlias" if r < 0.65 else "TransformAlias"
+        copy_arg = {"DeepCopy": (), "WithAlias": (("i", 3),), "TransformAlias": (rng.choice(HFNS),)}[copy_op]
         for seq in itertools.product(EXH_OPS, repeat=length):
             ops, cur, n = [], 0, 1
             for o in seq:
                 if o == "COPY":
-                    ops.append((copy_op, cur, ("i", 3)) if copy_op == "WithAlias" else (copy_op, cur))
+                    ops.append((copy_op, cur) + copy_arg)
                     cur, n = n, n + 1        # run_impl redirects to instance 0 when the helper raised
                 else:
                     ops.append(("On", cur, o))
             out.append((host, cfg, init, ops))
     return out, len(chosen), length
+
+
+MUTABLE_LEAVES = [("D", [(0, ("i", 1))]), ("D", []), ("I", [(0, ("i", 2))]), ("I", []),
+                  ("D", [(1, ("D", [(0, ("i", 4))]))]),                 # {"l": {"k": 4}}
+                  ("T", [("D", [(0, ("i", 1))]), ("i", 2)]),            # ({"k": 1}, 2)
+                  ("I", [(1, ("I", [(2, ("i", 5))]))])]                 # obj.b = obj(x=5)
+
+
+def helper_cases(rng, tier):
+    """Copy-on-write helpers of a spec class on the alias (and on the target attribute when the
+    path is one attribute), aimed at what a helper READS before it writes: the current value —
+    the live target seen through the alias, a local override, a fallback copy — is a mutable
+    object in most cases, the callables of the pool write into / hand back / wrap what they are
+    given, and the helper is followed by reads and writes on either instance.  Judged like every
+    other case: the original must be what it was, the copy must be the machine's next state and
+    share nothing with any earlier instance."""
+    n = 2500 if tier == "quick" else 20000
+    shapes = [PATH_SHAPES[1], PATH_SHAPES[1], PATH_SHAPES[0], PATH_SHAPES[2], PATH_SHAPES[4],
+              PATH_SHAPES[6], PATH_SHAPES[7], [("A", 0), ("A", 1)], [("A", 1), ("I", 1), ("I", 0)]]
+    out = []
+    for _ in range(n):
+        path = rng.choice(shapes)
+        name = rng.choice([5, 6])
+        typed_alias = rng.random() < 0.2
+        host = {"spec": True, "int": sorted(INT_ATTRS + ([name] if typed_alias else []))}
+        cfg = {"path": path, "pt": rng.random() < 0.4, "tr": rng.choice([None, None, None, "FInc", "FSeven"]),
+               "fb": rng.choice([None, None, ("i", 0), ("D", [(0, ("i", 1))]), ("T", [("D", [(0, ("i", 1))])])]),
+               "name": name, "bound": True, "dep": rng.random() < 0.3, "quotes": 0}
+        tgt_typed = slot_typed(host, cfg)
+        r = rng.random()
+        leaf = rng.choice(MUTABLE_LEAVES) if r < 0.6 and not tgt_typed else rand_val(rng, mutable_ok=not tgt_typed)
+        init = happy_tree(rng, path, present=rng.random() < 0.85, leaf=leaf)
+        if rng.random() < 0.1:
+            init = perturb(rng, init, path)
+        if init[0] != "I":
+            init = ("I", [])
+        init = no_empty_dict_in_typed_slot(init, host, cfg)
+        if not cfg["pt"] and rng.random() < 0.25:      # starts out shadowed, mostly by a mutable object
+            ov = rng.choice(MUTABLE_LEAVES) if not typed_alias and rng.random() < 0.7 else rng.choice(SCALARS)
+            init = ("I", init[1] + [(-name - 1, ov)])
+        one_attr = len(path) == 1 and path[0][0] == "A"
+        ops = []
+        pre = rng.random()
+        if pre < 0.15 and not (typed_alias or (cfg["pt"] and tgt_typed)):
+            ops.append(("On", 0, ("WrAlias", rng.choice(MUTABLE_LEAVES))))
+        elif pre < 0.25 and not tgt_typed:
+            ops.append(("On", 0, ("WrTarget", rng.choice(MUTABLE_LEAVES))))
+        elif pre < 0.3:
+            ops.append(("On", 0, ("DelTarget",)))
+        elif pre < 0.35:
+            ops.append(("On", 0, ("RdAlias",)))
+        nroots = 1
+        for _ in range(1 if rng.random() < 0.7 else 2):
+            on_target = one_attr and rng.random() < 0.3
+            sfx = "Target" if on_target else "Alias"
+            ok_mut = not (tgt_typed if on_target else (typed_alias or (cfg["pt"] and tgt_typed)))
+            k = rng.random()
+            i = rng.randrange(nroots)
+            if k < 0.7:
+                ops.append(("Transform" + sfx, i, rng.choice(HFNS[:4] * 2 + HFNS)))
+            elif k < 0.8:
+                ops.append(("Update" + sfx, i, None))
+            elif k < 0.87:
+                ops.append(("Update" + sfx, i, rand_val(rng, mutable_ok=ok_mut)))
+            elif k < 0.94:
+                ops.append(("Reset" + sfx, i))
+            else:
+                ops.append(("With" + sfx, i, rand_val(rng, mutable_ok=ok_mut)))
+            nroots += 1
+        post = rng.random()
+        j = rng.randrange(nroots)
+        if post < 0.2:
+            ops.append(("On", j, ("RdAlias",)))
+        elif post < 0.3:
+            ops.append(("On", j, ("RdTarget",)))
+        elif post < 0.4:
+            ops.append(("On", j, ("DelAlias",)))
+        elif post < 0.5 and not tgt_typed:
+            ops.append(("On", j, ("WrTarget", rng.choice(MUTABLE_LEAVES + SCALARS))))
+        out.append((host, cfg, init, ops))
+    return out
 
 
 def generate(rng, tier):
@@ -750,8 +920,10 @@ def from_json(r):
         if o[0] == "On":
             sub = o[2]
             return ("On", o[1], (sub[0], tree_from_json(sub[1])) if len(sub) > 1 else (sub[0],))
-        if o[0] == "DeepCopy":
-            return ("DeepCopy", o[1])
+        if o[0] == "DeepCopy" or o[0].startswith("Reset"):
+            return (o[0], o[1])
+        if o[0].startswith("Transform") or o[2] is None:
+            return (o[0], o[1], o[2])
         return (o[0], o[1], tree_from_json(o[2]))
     return (r["host"], cfg, tree_from_json(r["init"]), [op(o) for o in r["ops"]])
 
@@ -780,7 +952,8 @@ def main(tier, replay=None):
     chk.proofs()
     cases = generate(chk.rng, tier)
     exh, exh_cfgs, exh_len = exhaustive_cases(chk.rng, tier)
-    cases = exh + cases
+    helpers = helper_cases(chk.rng, tier)
+    cases = exh + helpers + cases
     # corpus of minimised past failures first
     import os
     cdir = os.path.join(os.path.dirname(os.path.dirname(os.path.abspath(__file__))), "corpus", "C18")
@@ -832,7 +1005,8 @@ def main(tier, replay=None):
             "path_shape_histogram": st.shapes, "configurations_seen": len(st.cfghist),
             "configuration_histogram_top": dict(sorted(st.cfghist.items(), key=lambda kv: -kv[1])[:12]),
             "hosts": ["plain class", "spec class (alias annotated: managed, type-checked)"],
-            "corpus_cases": len(corpus), "exhaustive_cases": len(exh), "random_cases": len(cases) - len(exh) - len(corpus),
+            "corpus_cases": len(corpus), "exhaustive_cases": len(exh), "helper_block_cases": len(helpers),
+            "random_cases": len(cases) - len(exh) - len(helpers) - len(corpus),
         },
         "attr_proxy": {"constructed": PROXY["built"], "not_alias_plus_one_warning": len(PROXY["bad"])},
         "parser_validated_not_proved": {"path_strings_compared": pn, "mismatches": len(pbad),
@@ -842,11 +1016,13 @@ def main(tier, replay=None):
                 "configurations sampled from passthrough x transform pool x fallback pool x DeprecatedAlias x path shape "
                 "(10 fixed shapes + random paths) x plain/spec host x typed/untyped alias; sequences of 1..4 (quick) / 1..7 "
                 "(thorough) operations over read/write/delete alias, class-level read, read/write/delete target, deepcopy, "
-                "with_<alias>, with_<target>; distinct = distinct (host, configuration, initial tree, operations); every case "
+                "with_/update_/transform_/reset_<alias> and <target> (transform pool: identity, write-into-argument, wrap, +1, const); "
+                "helper block: aimed cases around one or two helper calls with mutable current values; distinct = distinct (host, configuration, initial tree, operations); every case "
                 "has >= 1 operation and is judged after every operation",
-        "samples": [to_json(cases[j]) for j in (len(corpus), len(corpus) + len(exh) + 1, len(cases) - 1)],
+        "samples": [to_json(cases[j]) for j in (len(corpus), len(corpus) + len(exh) + 1,
+                                                  len(corpus) + len(exh) + len(helpers) + 1, len(cases) - 1)],
         "exhaustive": False, "exhaustive_subscope": {"scope": f"all {len(EXH_OPS)}^{exh_len} sequences of length {exh_len} over read/write/delete alias, "
-                                f"read/write/delete target, copy (deepcopy or with_<alias>), for {exh_cfgs} seeded core "
+                                f"read/write/delete target, copy (deepcopy, with_<alias> or transform_<alias>), for {exh_cfgs} seeded core "
                                 "configurations; everything else is sampled", "cases": len(exh)},
     }
     return chk.finish(
